@@ -347,9 +347,10 @@ def tens_dimension (P : Params) (d : OpDesc) : R := do
   let ts ← (mainTensors d).mapM (·.dims)
   return ts.all fun s => s.all (inRange P.tensDim)
 
+/-- repair C13-24: for the per-axis operator types only the weights may be quantised per axis, not IFM / IFM2 / OFM -/
 def tens_quant_per_axis (P : Params) (d : OpDesc) : R :=
-  if P.perAxisOps.contains d.type then .ok true else
-  .ok ((iiwoTensors d).all fun t => match t.quant with | some q => !q.isPerAxis | none => true)
+  let ts := if P.perAxisOps.contains d.type then [ifm d, ifm2 d, ofm d].filterMap id else iiwoTensors d
+  .ok (ts.all fun t => match t.quant with | some q => !q.isPerAxis | none => true)
 
 def batch_size (P : Params) (d : OpDesc) : R := do
   let chk (o : Option Tens) : R := match o with
@@ -421,14 +422,19 @@ def bias_shape (P : Params) (d : OpDesc) : R :=
 def bias_type (P : Params) (d : OpDesc) : R :=
   match bias d with | some b => .ok (P.biasDtypes.contains b.dtype) | none => .ok true
 
-/-- `len(bin(value)[2:])`: binary digits, plus one for the `b` left over from `-0b…` -/
+/-- `len(bin(value)[2:])`: binary digits, plus one for the `b` left over from `-0b…` (what the constraint counted before
+    repair C13-27; kept for the witness theorems about the old criterion) -/
 def binLen (v : Int) : Nat := if v < 0 then Nat.log2 v.natAbs + 2 else if v == 0 then 1 else Nat.log2 v.natAbs + 1
+
+/-- the signed `bits`-bit range, `-(1 << (bits-1)) <= v < (1 << (bits-1))` (repair C13-27: what `encode_bias` asserts) -/
+def fitsSigned (bits : Nat) (v : Int) : Bool :=
+  decide (-(2 ^ (bits - 1) : Int) ≤ v) && decide (v < (2 ^ (bits - 1) : Int))
 
 def bias_40bit (P : Params) (d : OpDesc) : R :=
   match bias d with
   | some b =>
     if b.dtype == n!"int64" && b.hasValues then do
-      return (← b.intVals).all fun v => decide (binLen v ≤ P.biasBits)
+      return (← b.intVals).all fun v => fitsSigned P.biasBits v
     else .ok true
   | none => .ok true
 
@@ -522,6 +528,8 @@ def resize (P : Params) (d : OpDesc) : R := do
   let ac ← attrBool d n!"align_corners" false
   if i.length != 4 then return false
   if (ih == 1 && iw == 1) || i == o then return true
+  -- repair C13-22: with align_corners a dimension of size 1 has no scaling (0/0); answered "not supported" without dividing
+  if ac && (ih == 1 || iw == 1) then return false
   let (nh, dh, nw, dw) := if ac then (oh - 1, ih - 1, ow - 1, iw - 1) else (oh, ih, ow, iw)
   if dh == 0 ∨ dw == 0 then exc else
   -- int(h_upscale_factor) is stored as an attribute; nothing can raise once the divisors are non-zero
